@@ -248,7 +248,7 @@ static rc::Gen<Case> gen_c04(int inst) {
     if (op <= 1) {
       // a (+|-) b with |b| = ulp(a)/2 + ulp(a) 2^-k: exactly representable, the exact result is a tie plus a sliver
       for (int j = 0; j < na; j++) {
-        int e; const LD a = round_to(nt, std::ldexp(std::frexp(std::get<0>(t), &e) + std::ldexp((LD)r[(size_t)j], -30), e));
+        int e = 0; const LD fr = std::frexp(std::get<0>(t), &e); const LD a = round_to(nt, std::ldexp(fr + std::ldexp((LD)r[(size_t)j], -30), e));
         const LD u = ulp_at(nt, a); const int k = 12 + r[(size_t)j] % 28;
         LD b = u / 2 + std::ldexp(u, -k); if ((a < 0) != (op == 1)) b = -b;   // moves |a| away from zero
         c.r[(size_t)j] = a; if (j < nb) c.r[(size_t)(na + j)] = b;
